@@ -65,6 +65,7 @@ type rhs struct {
 	plus bool
 	n    int
 	unit string
+	sp   int // unit spelling: 0 day, 1 days, 2 DAY, 3 DAYS (final capital S: dropped by evaluateRelativeTime), 4 Days
 	k    int64
 }
 
@@ -94,7 +95,7 @@ func (r rhs) toks() string {
 		if r.plus {
 			sg = "+"
 		}
-		return fmt.Sprintf("R %s %d %s", sg, r.n, r.unit)
+		return fmt.Sprintf("R %s %d %s %d", sg, r.n, r.unit, b01(r.sp == 3))
 	}
 	return fmt.Sprintf("N %d", r.k)
 }
@@ -204,13 +205,7 @@ func (st *style) rhs(r rhs) string {
 		return "'" + r.l.sql() + "'"
 	case 'R':
 		nowS := vh.Pick(st.r, []string{"NOW()", "now()", "NOW( )", "CURRENT_TIMESTAMP"})
-		u := r.unit
-		if st.r.Bool() {
-			u += "s"
-		}
-		if st.r.Chance(20) {
-			u = strings.ToUpper(u)
-		}
+		u := unitSpell(r.unit, r.sp)
 		sg := "-"
 		if r.plus {
 			sg = "+"
@@ -218,6 +213,20 @@ func (st *style) rhs(r rhs) string {
 		return fmt.Sprintf("%s%s%s%sINTERVAL%s'%d%s%s'", nowS, st.sp(), sg, st.sp(), st.sp(), r.n, vh.Pick(st.r, []string{" ", " ", ""}), u)
 	}
 	return fmt.Sprintf("%d", r.k)
+}
+
+func unitSpell(u string, sp int) string {
+	switch sp {
+	case 1:
+		return u + "s"
+	case 2:
+		return strings.ToUpper(u)
+	case 3:
+		return strings.ToUpper(u) + "S"
+	case 4:
+		return strings.ToUpper(u[:1]) + u[1:] + "s"
+	}
+	return u
 }
 
 var opSQL = map[string]string{"ge": ">=", "gt": ">", "lt": "<", "le": "<="}
@@ -811,7 +820,7 @@ func (e *env) relRhs(target int64) rhs {
 	if n > 99999 {
 		n = 99999
 	}
-	return rhs{kind: 'R', plus: plus, n: n, unit: x.name}
+	return rhs{kind: 'R', plus: plus, n: n, unit: x.name, sp: vh.Pick(e.r, []int{0, 0, 1, 1, 1, 2, 3, 4})}
 }
 
 // instants worth comparing with: row times, their hour / day boundaries, small offsets.
@@ -1101,17 +1110,20 @@ func (e *env) opRel(plus bool, n int, unit string) {
 	if plus {
 		sg = "+"
 	}
-	u := unit
-	if e.r.Bool() {
-		u += "s"
-	}
+	sp := e.r.Intn(5)
+	u := unitSpell(unit, sp)
 	t, err := pruning.VerifEvaluateRelativeTime(fmt.Sprint(n), u, plus)
-	must(err)
+	goS := "err"
+	if err == nil {
+		goS = bigNs(t)
+	}
 	var us sql.NullInt64
 	nowLit := "TIMESTAMPTZ '" + utc(e.now).Format("2006-01-02 15:04:05.000000") + "+00'"
 	must(e.sqldb.QueryRow(fmt.Sprintf("SELECT epoch_us(%s %s INTERVAL '%d %s')", nowLit, sg, n, u)).Scan(&us))
-	e.c.Op(fmt.Sprintf("rel %s %d %s", sg, n, unit), fmt.Sprintf("go=%s db=%d", bigNs(t), us.Int64*1000))
-	if t.UnixNano() != us.Int64*1000 {
+	e.c.Op(fmt.Sprintf("rel %s %d %s %d", sg, n, unit, b01(sp == 3)), fmt.Sprintf("go=%s db=%d", goS, us.Int64*1000))
+	if err != nil {
+		e.c.Tag("rel:unit-with-capital-S-dropped")
+	} else if t.UnixNano() != us.Int64*1000 {
 		e.c.Tag("rel:go-differs-from-duckdb:" + unit)
 	}
 }
